@@ -99,7 +99,22 @@ def gen_doc(rng, k):
     if k % 11 == 6:
         extra = [dict(joints[i]) for i in order]; kind = kind if kind != "supported" else "dup_identical"
     if k % 13 == 8:
-        d = dict(joints[order[0]]); d["vec"] = (0.123, 0, 0); extra = [d]; kind = "dup_conflict"
+        # a second element with the same joint name that differs in exactly one attribute: origin, axis, lower or upper limit
+        d = dict(joints[order[0]]); kind = "dup_conflict"
+        which = rng.randrange(4)
+        if which == 1 and d["axis_val"] is not None and any(d["axis_val"][1]):
+            ax2 = [-v for v in d["axis_val"][1]]
+            d["axis_txt"], d["axis_val"] = " ".join(str(v) for v in ax2), ("VOk", ax2)
+        elif which >= 2 and d["lim_val"] is not None and all(v[0] == "ARad" for v in d["lim_val"]) and not d["lim_txt"][0].startswith("$"):
+            lo_, hi_ = float(d["lim_txt"][0]), float(d["lim_txt"][1])
+            if which == 2:
+                lo_ = round(lo_ - 0.25, 3)
+            else:
+                hi_ = round(hi_ + 0.25, 3)
+            d["lim_txt"], d["lim_val"] = (repr(lo_), repr(hi_)), (("ARad", dec(lo_)), ("ARad", dec(hi_)))
+        else:
+            d["vec"] = (0.123, 0, 0)
+        extra = [d]
     fixed = {"name": "tool0_fixed", "vec": (0, 0, 0.1), "axis_txt": None, "axis_val": None, "lim_txt": None, "lim_val": None}
 
     def jxml(j, ind):
